@@ -45,6 +45,7 @@ func checkPath(path string, evs []world.Ev, spawnOK int) *verdict {
 	lastInst := -1
 	killedInst := -1
 	restartPending := false
+	awaitFromDead := false
 	lateSpawn := map[int]bool{}
 	for i, e := range evs {
 		ctx := func() string {
@@ -57,9 +58,16 @@ func checkPath(path string, evs []world.Ev, spawnOK int) *verdict {
 		switch {
 		case e.Kind == "hook:prelaunch":
 			failed := strings.HasPrefix(e.Note, "fail")
+			state0 := state
 			switch state {
 			case none, dead:
-				if restartPending {
+				if restartPending && e.Inst != lastInst {
+					// not the restart's own hook (that runs on the instance OnRestarted ran on): a racing ActorOf under
+					// the same name, between the two hooks of the restart
+					if !failed {
+						lateSpawn[e.Inst] = true
+					}
+				} else if restartPending {
 					// prelaunch of a restart
 					if failed {
 						state = zombie
@@ -72,6 +80,7 @@ func checkPath(path string, evs []world.Ev, spawnOK int) *verdict {
 				} else {
 					state = await
 					lastInst = e.Inst
+					awaitFromDead = state0 == dead
 				}
 			case zombie:
 				if !failed {
@@ -94,6 +103,13 @@ func checkPath(path string, evs []world.Ev, spawnOK int) *verdict {
 				return &verdict{"C05/restart|prerestart-out-of-place", fmt.Sprintf("%s: OnPreRestart while not running: %s", path, ctx())}
 			}
 		case e.Kind == "hook:restarted":
+			if state == await && awaitFromDead {
+				// the OnPrelaunch seen after the own OnKilled was not a new spawn: ActorOf calls the hook before it looks
+				// at the name, and this call came between the OnKilled and the OnRestarted of a restart in progress
+				// (it then fails with AlreadyExists, or wins the name later: the late-spawn rule)
+				lateSpawn[lastInst] = true
+				state = dead
+			}
 			if state != dead {
 				return &verdict{"C05/restart|before-own-killed", fmt.Sprintf("%s: OnRestarted before the previous incarnation saw its own OnKilled: %s", path, ctx())}
 			}
@@ -125,6 +141,7 @@ func checkPath(path string, evs []world.Ev, spawnOK int) *verdict {
 			}
 			state = running
 			lastInst = e.Inst
+			awaitFromDead = false
 		case e.Kind == "killed:"+path:
 			if state != running {
 				return &verdict{"C05/own-killed|out-of-place", fmt.Sprintf("%s: own OnKilled in state %d: %s", path, state, ctx())}
@@ -226,7 +243,7 @@ func run(t *testing.T, s world.Scenario) (v *verdict, nontrivial bool, labels []
 	})
 	if v == nil && res.Panic != nil {
 		if res.Deadlock {
-			v = &verdict{"C05/bubble-deadlock", fmt.Sprintf("%v", res.Panic)}
+			v = &verdict{"C05/bubble-deadlock", fmt.Sprintf("%v\n%s", res.Panic, res.Stack)}
 		} else {
 			v = &verdict{"C05/harness-panic", fmt.Sprintf("%v\n%s", res.Panic, res.Stack)}
 		}
